@@ -248,6 +248,37 @@ struct Run<V: VringT<GM> + Clone + Send + Sync + 'static, B: Wrap<V>> {
     beq_ends: Option<(UnixStream, UnixStream)>,
     listener: vhost::vhost_user::Listener,
     path: std::path::PathBuf,
+    watch: Arc<Watch>,
+}
+
+/// shuts the frontend's connection down when a step does not come back in time
+#[derive(Default)]
+pub struct Watch {
+    deadline: Mutex<Option<std::time::Instant>>,
+    sock: Mutex<Option<UnixStream>>,
+    fired: std::sync::atomic::AtomicBool,
+    stop: std::sync::atomic::AtomicBool,
+    /// the panic count when the step began: a panic on the backend side ends the wait at once
+    base: std::sync::atomic::AtomicU64,
+}
+impl Watch {
+    fn run(&self) {
+        use std::sync::atomic::Ordering::SeqCst;
+        while !self.stop.load(SeqCst) {
+            std::thread::sleep(Duration::from_millis(25));
+            let due = match *self.deadline.lock().unwrap() {
+                Some(d) => std::time::Instant::now() >= d || crate::PANICS.load(SeqCst) > self.base.load(SeqCst),
+                None => false,
+            };
+            if due {
+                *self.deadline.lock().unwrap() = None;
+                self.fired.store(true, SeqCst);
+                if let Some(s) = self.sock.lock().unwrap().as_ref() {
+                    let _ = s.shutdown(std::net::Shutdown::Both);
+                }
+            }
+        }
+    }
 }
 
 fn vres(r: vhost::Result<()>) -> Val {
@@ -313,6 +344,8 @@ impl<V: VringT<GM> + Clone + Send + Sync + 'static, B: Wrap<V>> Run<V, B> {
             // the frontend goes away and a new one connects to the same daemon: the handler's state (rings, memory
             // table, translation table, log, acknowledged features) persists, the connection-level state does not
             "reconnect" => {
+                // the watchdog's copy of the connection would keep it open
+                *self.watch.sock.lock().unwrap() = None;
                 let (a, _b) = UnixStream::pair().unwrap();
                 let old = std::mem::replace(&mut self.fe, Frontend::from_stream(a, 1));
                 drop(old);
@@ -324,6 +357,7 @@ impl<V: VringT<GM> + Clone + Send + Sync + 'static, B: Wrap<V>> Run<V, B> {
                 }
                 match connector.join() {
                     Ok(Ok(sock)) => {
+                        *self.watch.sock.lock().unwrap() = sock.try_clone().ok();
                         self.fe = Frontend::from_stream(sock, 0x8000);
                         self.fe.set_hdr_flags(VhostUserHeaderFlag::NEED_REPLY);
                         let _ = self.fe.get_features();
@@ -715,10 +749,18 @@ fn run_inner<V: VringT<GM> + Clone + Send + Sync + 'static, B: Wrap<V>>(cfg: &[V
         Ok(Ok(s)) => s,
         _ => return Val::err("connect"),
     };
+    // a daemon that stops answering without closing the connection must not hang the run: a watchdog shuts the
+    // connection down under a step that takes too long (the library itself retries a timed-out read for ever)
+    let watch = Arc::new(Watch::default());
+    *watch.sock.lock().unwrap() = sock.try_clone().ok();
+    {
+        let w = watch.clone();
+        std::thread::spawn(move || w.run());
+    }
     let fe = Frontend::from_stream(sock, 0x8000);
     fe.set_hdr_flags(VhostUserHeaderFlag::NEED_REPLY);
     let _ = fe.get_features();
-    let mut run: Run<V, B> = Run { _v: std::marker::PhantomData, daemon, fe, sh: sh.clone(), probes, rx, nthreads, fdt: FdTable::new(), evfds: HashMap::new(), masks, nq, listener_fds: HashMap::new(), panics0: crate::PANICS.load(std::sync::atomic::Ordering::SeqCst), beq_ends: None, listener, path: path.clone() };
+    let mut run: Run<V, B> = Run { _v: std::marker::PhantomData, daemon, fe, sh: sh.clone(), probes, rx, nthreads, fdt: FdTable::new(), evfds: HashMap::new(), masks, nq, listener_fds: HashMap::new(), panics0: crate::PANICS.load(std::sync::atomic::Ordering::SeqCst), beq_ends: None, listener, path: path.clone(), watch: watch.clone() };
     let mut out = vec![];
     for st in steps {
         let parts = match st.as_l() {
@@ -730,6 +772,9 @@ fn run_inner<V: VringT<GM> + Clone + Send + Sync + 'static, B: Wrap<V>>(cfg: &[V
         let data = parts.get(2).and_then(|v| v.as_h()).unwrap_or(&[]).to_vec();
         let regions: Vec<Vec<u64>> = parts.get(3).and_then(|v| v.as_l()).unwrap_or(&[]).iter().map(nums).collect();
         run.sh.lock().unwrap().events.clear();
+        let panics_before = crate::PANICS.load(std::sync::atomic::Ordering::SeqCst);
+        watch.base.store(panics_before, std::sync::atomic::Ordering::SeqCst);
+        *watch.deadline.lock().unwrap() = Some(std::time::Instant::now() + Duration::from_millis(6000));
         let res = run.step(&kind, &a, &data, &regions);
         // control messages without an acknowledgement: a GET_FEATURES round trip orders them
         let control = !matches!(
@@ -739,6 +784,17 @@ fn run_inner<V: VringT<GM> + Clone + Send + Sync + 'static, B: Wrap<V>>(cfg: &[V
         );
         if control {
             let _ = run.fe.get_features();
+        }
+        // a thread of the backend side panicked while this step was served: that is the observation of the step, and
+        // the history ends here (what a daemon does after losing its request thread is not specified); likewise a
+        // daemon that neither answers nor closes the connection (the calls of the step ran into the read timeout)
+        *watch.deadline.lock().unwrap() = None;
+        let panicked = crate::PANICS.load(std::sync::atomic::Ordering::SeqCst) > panics_before;
+        let hung = watch.fired.swap(false, std::sync::atomic::Ordering::SeqCst);
+        if panicked || hung {
+            out.push(Val::L(vec![Val::s(if panicked { "panic" } else { "hung" }), Val::L(vec![])]));
+            PARTIAL.with(|p| p.borrow_mut().push(out.last().unwrap().clone()));
+            break;
         }
         // let every worker drain what is ready, then collect the dispatch log of this step
         std::thread::sleep(Duration::from_millis(if kind == "kick" || kind == "fire_listener" { 3 } else { 0 }));
@@ -752,6 +808,8 @@ fn run_inner<V: VringT<GM> + Clone + Send + Sync + 'static, B: Wrap<V>>(cfg: &[V
         PARTIAL.with(|p| p.borrow_mut().push(out.last().unwrap().clone()));
     }
     // teardown
+    watch.stop.store(true, std::sync::atomic::Ordering::SeqCst);
+    *watch.sock.lock().unwrap() = None;
     let Run { mut daemon, fe, mut fdt, .. } = run;
     drop(fe);
     let _ = daemon.wait();
